@@ -2504,31 +2504,40 @@ class Trimesh(Geometry3D):
             # which will cause hashes to be more
             # expensive than necessary so wrap
             self.faces = np.ascontiguousarray(np.fliplr(self.faces))
+            flipped = True
+        else:
+            flipped = False
 
         # assign the new values
         self.vertices = new_vertices
 
         # preserve normals and topology in cache
         # while dumping everything else
-        self._cache.clear(
-            exclude={
-                "face_normals",  # transformed by us
-                "vertex_normals",  # also transformed by us
-                "face_adjacency",  # topological
-                "face_adjacency_edges",
-                "face_adjacency_unshared",
-                "edges",
-                "edges_face",
-                "edges_sorted",
-                "edges_unique",
-                "edges_unique_idx",
-                "edges_unique_inverse",
-                "edges_sparse",
-                "body_count",
-                "faces_unique_edges",
-                "euler_number",
-            }
-        )
+        exclude = {
+            "face_normals",  # transformed by us
+            "vertex_normals",  # also transformed by us
+            "face_adjacency",  # topological
+            "face_adjacency_edges",
+            "face_adjacency_unshared",
+            "body_count",
+            "euler_number",
+        }
+        if not flipped:
+            # these depend on the order of vertices within each
+            # face so they only survive if faces were not re-wound
+            exclude.update(
+                {
+                    "edges",
+                    "edges_face",
+                    "edges_sorted",
+                    "edges_unique",
+                    "edges_unique_idx",
+                    "edges_unique_inverse",
+                    "edges_sparse",
+                    "faces_unique_edges",
+                }
+            )
+        self._cache.clear(exclude=exclude)
         # set the cache ID with the current hash value
         self._cache.id_set()
         return self
